@@ -3,6 +3,8 @@
      K: A = Array of Int, L = List of Int, T = heap Tuple of (distinct) Int objects,
         S = Tuple on the stack (cannot be reallocated), F = finding F3 probe (Tuple holding the
         same object twice; only `N` and dumps)
+     (flag c<d>: `t` is sort_by with comparison d of SeqCmps.z_cmp; the specification prints OOR at a
+      sort with a comparison outside the sort theorem's contract)
      first op (optional)  N<v>,<v>,...   new with initial values (N alone: empty)
      ops: u<v> push  o pop  i<k>,<v> push_at  d<k> pop_at  s<k>,<v> set  g<k> get  m<v> mem  r<v> rem
           c<K>:<v>,.. concat from a fresh container of kind K   a<v> append   z<n> resize   t sort
@@ -15,6 +17,11 @@
      spec:  <out>;<len>;<G>;<M>    or  OOR  from the first operation outside the container's
         in-range contract on (property C04 says nothing from there on) *)
 let probes = [0; 1; 2; 7]
+(* comparison handed to sort_by in this case (header flag c<digit>, SeqCmps.e_cmp); 0 = lt *)
+let cmpk = ref 0
+let za_step a o = Seq.za_step (nat_of_int !cmpk) a o
+let zt_step t o = Seq.zt_step (nat_of_int !cmpk) t o
+let zspec_step k l o = Seq.zspec_step (nat_of_int !cmpk) k l o
 let exn_s = function
   | KeyError -> "KeyError" | FormatError -> "FormatError" | ValueError -> "ValueError"
   | IndexError -> "IndexOutOfBoundsError" | TypeError -> "TypeError" | ClassError -> "ClassError"
@@ -126,7 +133,8 @@ let run_spec kind init ops =
     (try let ln = List.fold_left (fun l o ->
       let o = split_how o in
       let op = parse_op o in
-      if not (zspec_in_range k l op) || (not !heap && mutating_realloc op) then begin
+      if not (zspec_in_range k l op) || (not !heap && mutating_realloc op)
+         || (op = SSort && not (zcmp_in_contract (nat_of_int !cmpk))) then begin
         Buffer.add_string buf " | OOR"; raise Exit end;
       if op = SCopy then heap := true;
       let (l', out) = zspec_step k l op in
@@ -144,7 +152,11 @@ let () =
       let kind = String.sub line 0 1 in
       (* flags between the kind and '|': '*' explicit dump mode, e<size> struct elements (the
          models are the same for every element type) *)
-      explicit := String.contains (String.sub line 1 (b - 1)) '*';
+      let flags = String.sub line 1 (b - 1) in
+      explicit := String.contains flags '*';
+      cmpk := (match String.index_opt flags 'c' with
+               | Some i when i + 1 < String.length flags -> Char.code flags.[i + 1] - 48
+               | _ -> 0);
       let ops = List.filter (fun s -> s <> "") (String.split_on_char ' ' (after '|' line)) in
       let init, ops = match ops with
         | o :: r when o.[0] = 'N' -> vals (rest o), r
